@@ -1,4 +1,4 @@
-import BertE.Lemmas.C03
+import BertE.Lemmas.C03Direct
 import BertE.Model.Build
 import BertE.Props.C01
 /-
@@ -77,6 +77,31 @@ theorem C03_failed_needs_newer (s : Sys) (sel : List Nat) (b : Builds) (hg : Hea
     lastTargeting (selected s sel) d ≠ some e := by
   intro h
   exact hbad (hg d e c h hc)
+
+/-- **C03, direct path (queue skipped), partial.** Hypothesis beyond the property text: `ffReady` — every
+    integration branch contains its target's tip AND its predecessor's tip (`is_needed` only tests the first half;
+    the second half holds for integration branches the robot itself updated). Then the merge creates no commit,
+    and every target that moves lands on the source tip or an integration tip — the very commits on which
+    `check_build_status` read SUCCESSFUL (`hgate`) — or on a commit that already was the tip of a target branch. -/
+theorem C03_direct_partial {s : Sys} {l4 : Loc} (hl : l4.OK) (pr : PrInfo) {sc dc : Commit} (d1 : Dest) (ds : List Dest)
+    (hnd : (d1 :: ds).Nodup) (pre : List Op)
+    (hdc : l4.refs.get (.dest d1) = some dc) (hsc : sc < l4.g.size) (hle : l4.g.le dc sc = true)
+    (hready : ffReady l4.g l4.refs pr.src sc ds) (b : Builds)
+    (hgate : b sc = .successful ∧ ∀ d ∈ d1 :: ds, ∀ wc, l4.refs.get (.w d pr.src) = some wc → b wc = .successful) :
+    (directMerge s l4 pr sc (d1 :: ds) pre).g = l4.g ∧
+    ∃ loc, (directMerge s l4 pr sc (d1 :: ds) pre).ops.getLast? = some (.pushAll loc true) ∧
+      ∀ d ∈ d1 :: ds, ∃ n, loc.get (.dest d) = some n ∧
+        (l4.refs.get (.dest d) = some n ∨ b n = .successful ∨ ∃ d' ∈ d1 :: ds, l4.refs.get (.dest d') = some n) := by
+  obtain ⟨hg, _, loc, hlast, hres⟩ := directMerge_ff (s := s) hl pr d1 ds hnd pre hdc hsc hle hready
+  refine ⟨hg, loc, hlast, ?_⟩
+  intro d hd
+  obtain ⟨n, hn, hcase⟩ := hres d hd
+  refine ⟨n, hn, ?_⟩
+  rcases hcase with h | h | ⟨d', hd', h | h⟩
+  · exact Or.inl h
+  · subst h; exact Or.inr (Or.inl hgate.1)
+  · exact Or.inr (Or.inl (hgate.2 d' hd' n h))
+  · exact Or.inr (Or.inr ⟨d', hd', h⟩)
 
 /-- Non-vacuity: a concrete queue with one entry, selected, green. -/
 example :
